@@ -63,6 +63,21 @@ def run(ctx):
             ctx.disagree("helper:reverse_integer_index", f"round trip {w}",
                          {"kind": "helper", "name": "reverse_integer_index", "request": f"occupation {w}"})
 
+    # ---- Z matrices alone (cheap: no string tables), every shape up to 20 orbitals and the shapes up to 64 orbitals
+    #      whose sector has fewer than 2^31 strings (the matrix is stored as int32): every entry of the binomial table /
+    #      every binom() call of the two builders is exercised -----------------------------------------------------
+    import math
+    zshapes = [(n_, k_) for n_ in range(2, 21) for k_ in range(1, n_ + 1)]
+    zshapes += [(n_, k_) for n_ in range(21, 65) for k_ in range(1, n_ + 1) if math.comb(n_, k_) < 2 ** 31
+                and (ctx.tier != "quick" or k_ <= 3 or n_ - k_ <= 2 or (n_ + k_) % 7 == ctx.seed % 7)]
+    for norb, nele in zshapes:
+        Z = fg._get_Z_matrix(norb, nele)
+        wz = [int(x) for x in d.ask(f"zmatrix {norb} {nele}").split()][1:]
+        ctx.case(("zmat-sweep", norb, nele) if nele > 1 else None)
+        ctx.count("zmatrix-sweep")
+        if [int(x) for x in Z.ravel()] != wz:
+            ctx.disagree("strings:zmatrix", f"Z matrix differs at norb={norb} nele={nele}", {"kind": "zmatrix", "norb": norb, "nele": nele})
+            break
     # ---- strings, addressing, maps -----------------------------------------------------
     for norb, nele in _shapes(ctx):
         if ctx.out_of_time():
